@@ -348,6 +348,19 @@ def run(ctx):
                             "scheduling site reachable after stop(): %s" % why, where(f, c),
                             "activity (re)started after stop() returned", facts=["guarded=%s" % guarded])
 
+    # activity started from the processor-success chain also has to look at "still started": the processor itself may
+    # have called stop() (nothing to cancel yet, and stop() resets the stopping flag before the chain goes on)
+    ac = ctx.func(CONS + "._auto_commit")
+    cac = ctx.cfg(ac)
+    fac = ctx.facts(ac)
+    cm_nodes = [n for n in cac.nodes if any(call_name(c) == "commit" and call_recv(c) == "self" for c in n.calls())]
+    for n in cm_nodes:
+        f_ = fac[n.id]
+        started = ("self._start_d", True) in f_ or ("not self._start_d", False) in f_ or ("self._start_d is None", False) in f_
+        r.check(started, "%s#commit-only-while-started" % ac.qname, "the automatic commit is started without `_start_d` having been tested",
+                where(ac, n.stmt), "the processor calls stop() and then returns success with the count threshold reached: the stopped "
+                "consumer sends an OffsetCommit and, on a retriable error, keeps retrying after stop() has returned")
+
     # ---- R4 start Deferred
     r = ctx.rule("R4", "start Deferred: created once under `_start_d is None`, cleared only by stop(), fired under "
                        "`not called` with the processed offset", 3, "B")
